@@ -170,6 +170,15 @@ def run_check(prop, fn, tier, repo, explanation, assumptions, not_decided):
         except OSError:
             pass
         return 2
+    except Exception as e:      # fail closed: an analysis crash is never a silent pass nor a violation
+        import traceback
+        traceback.print_exc()
+        print('CHECK-BROKEN property=%s reason=exception %s: %s' % (prop, type(e).__name__, e))
+        try:
+            os.remove(ev_path)
+        except OSError:
+            pass
+        return 2
     known = {k['key']: k for k in load_known()['findings'] if k['property'] == prop}
     new = []
     kf = []
